@@ -128,9 +128,9 @@ PROPS = {
     },
     "C37": {
         "engine": "dbsim", "level": "exploration", "budget": {"quick": 25, "thorough": 600},
-        # a case that stops making progress for 20 s of wall clock (a run takes milliseconds) is replayed
+        # a case that stops making progress for 30 s of wall clock (a run takes milliseconds) is replayed
         # alone twice; if it stalls both times it is reported as a violation (class hang), not as harness trouble
-        "hang": {"watchdog": 20, "confirm": 2},
+        "hang": {"watchdog": 30, "confirm": 2},
         "title": "Operations and Close always finish",
         "technique": "deterministic simulation, bounded liveness: plain operations and transactions from 2-4 tasks with L0 throttle toggles, a tiny commit queue, a shrunk watermark window, and Close issued by one task while the others are mid-operation (operations continue after the close); after the fault phase the scheduler drains fairly with simulated time advancing and every call must have returned",
         "rule": "case as C34 plus transactions, commit-queue capacity 2, watermark window 4, optional racing Close; oracle: every call returns (value or error, never a panic) within 8000 scheduling steps / 4 simulated seconds after the last fault, Close returns; a run ending with a call still blocked and nothing enabled is the violation (with the blocked tasks and their last sites); distinct/non-trivial as C34",
